@@ -377,3 +377,39 @@ package goat
 //@   requires ctx != nil && desc != nil && len(opts) == 0
 //@   ensures[C20.interceptor_or_direct_once] ncalls("fnfield:H.goat.ClientConn.streamInterceptor") + ncalls("call:goat.(*ClientConn).newStream")
 //@     | == old(ncalls("fnfield:H.goat.ClientConn.streamInterceptor") + ncalls("call:goat.(*ClientConn).newStream")) + 1
+
+// ---------------------------------------------------------------------------------
+// C15: locking discipline of every shared field of package goat
+
+//@ fielddefault[C15.discipline] goat.Server init_only
+//@ field[C15.discipline] goat.Server.unaryInterceptor init_only by=goat.UnaryInterceptor$1,goat.ChainUnaryInterceptor$1
+//@ field[C15.discipline] goat.Server.streamInterceptor init_only by=goat.StreamInterceptor$1,goat.ChainStreamInterceptor$1
+//@ field[C15.discipline] goat.Server.statsHandlers init_only by=goat.StatsHandler$1
+//@ field[C15.discipline] goat.Server.services init_only by=goat.(*Server).RegisterService
+//@ fielddefault[C15.discipline] goat.serviceInfo init_only
+//@ field[C15.discipline] goat.serviceInfo.methods init_only by=goat.(*Server).RegisterService
+//@ field[C15.discipline] goat.serviceInfo.streams init_only by=goat.(*Server).RegisterService
+//@ fielddefault[C15.discipline] goat.unaryRpcArgs init_only
+//@ fielddefault[C15.discipline] goat.streamHandler init_only
+//@ fielddefault[C15.discipline] goat.handler init_only
+//@ field[C15.discipline] goat.handler.streams init_only contents=mu
+//@ fielddefault[C15.discipline] goat.ClientConn init_only
+//@ field[C15.discipline] goat.ClientConn.unaryInterceptor init_only by=goat.WithUnaryInterceptor$1
+//@ field[C15.discipline] goat.ClientConn.streamInterceptor init_only by=goat.WithStreamInterceptor$1
+//@ field[C15.discipline] goat.ClientConn.statsHandlers init_only by=goat.WithStatsHandler$1
+//@ fielddefault[C15.discipline] goat.Proxy init_only
+//@ field[C15.discipline] goat.Proxy.clients init_only contents=mutex
+//@ fielddefault[C15.discipline] goat.command init_only
+//@ fielddefault[C15.discipline] goat.proxyClient init_only
+//@ field[C15.discipline] goat.proxyClient.conn init_only by=goat.(*proxyClient).connect
+//@ fielddefault[C15.discipline] goat.demuxConn init_only
+//@ fielddefault[C15.discipline] goat.Demux init_only
+//@ field[C15.discipline] goat.Demux.conns.value init_only contents=conns.Mutex
+//@ fielddefault[C15.discipline] goat.goatOverWebsocket init_only
+//@ fielddefault[C15.discipline] goat.GoatOverHttp init_only
+//@ field[C15.discipline] goat.GoatOverHttp.conns.value init_only contents=conns.Mutex
+//@ field[C15.discipline] goat.GoatOverHttp.clock init_only by=goat.WithClock$1
+//@ field[C15.discipline] goat.GoatOverHttp.connectionCleanupInterval init_only by=goat.WithConnectionCleanupInterval$1
+//@ field[C15.discipline] goat.GoatOverHttp.connectionTimeout init_only by=goat.WithConnectionTimeout$1
+//@ fielddefault[C15.discipline] goat.httpReadWriter init_only
+//@ field[C15.discipline] goat.httpReadWriter.lastActivity atomic
